@@ -17,7 +17,7 @@ func init() {
 		Explanation: `R14.1 emit/advance pairing: OverlayOp messages are written only by fresh, skip and Finalize; fresh advances readOffset by len of the data it stored in the op, skip by the length it stored, on every success path; ` +
 			`R14.2 Finalize flushes (checked) before writing the end marker, and the entry writer finalizes the overlay before syncing; R14.3 magic and header are written only at overlay offset 0 and the byte counter is seeded with the overlay offset; ` +
 			`R14.4 every op type the writer emits has a case in the applier and the applier returns nil only at the end marker; R14.5 the old-file window is inspected only below the count its Read returned; R14.6 that read cannot come back short before the end of the old file (a full read, or a single Read on a reader that is not a bufio.Reader); ` +
-			`R02.4 (shared) the caller truncates at the position the applier ended. NOT decided: the window/skip index arithmetic, write slicing, short reads of the old file.`,
+			`R02.4 (shared) the caller truncates at the position the applier ended. R14.7 each field that OverlayPatchContext.Patch assigns is assigned before it is first read or is zero again on every success return; scratch buffers, recycled message objects that are Reset before use and allocation tests are not state. NOT decided: the window/skip index arithmetic, write slicing, short reads of the old file.`,
 		Run: runC14,
 	})
 }
@@ -44,6 +44,7 @@ func runC14(c *core.Ctx) {
 	c.Rule("R14.5", "old-file window inspected only below the count read")
 	c.Rule("R14.6", "the window read is a full read or does not go through a buffering reader")
 	c.Rule("R02.4", "overlay application ends with truncation at the applier's final position")
+	ruleUseStartsClean(c, "R14.7", "pwr/overlay", "OverlayPatchContext", "Patch")
 	opT := overlayOpTypes(c.P)
 	if len(opT) < 3 {
 		c.Missing("R14", "pwr/overlay.OverlayOp_*", "op type constants not found")
